@@ -189,6 +189,9 @@ class ImplInst:
         cls = layer_cls or isotp.TransportLayerLogic
         # every kind of callable is a legal error handler: bound method, functools.partial, object with __call__ (chosen by the
         # configuration, so that a replay makes the same choice)
+        # one instance in four runs with its logger at DEBUG (records go to a NullHandler): the trace lines are built then, and building
+        # them must never let an exception escape either
+        logging.getLogger('isotp').setLevel(logging.DEBUG if len(json.dumps(inst, sort_keys=True, default=str)) % 4 == 0 else logging.CRITICAL + 1)
         kind = len(json.dumps(inst['params'], sort_keys=True, default=str)) % 3
         if kind == 1:
             import functools
